@@ -114,6 +114,17 @@ def generate(tier, seed):
             kind = rng.choice(["from", "built"])
             extra = [rng.choice([4, 9, 0, 5])] if (kind == "built" and rng.random() < 0.5) else []
             lines += helper_case(pairs, extra, kind); hc += 1
+    for _ in range(60 if tier == "quick" else 1000):
+        # a nested list of depth 3 built from handles, then every accessor pair compared on it and on its sub-lists
+        ls = ["NEW"] + SETUP
+        nh = 9
+        subs = []
+        for _ in range(rng.randint(2, 4)):
+            ls.append("API list " + " ".join(str(rng.choice([1, 2, 4, 5, 6, 0, 3, 7] + subs)) for _ in range(rng.randint(0, 5)))); subs.append(nh); nh += 1
+        ls.append("API list " + " ".join(str(rng.choice(subs + [1, 3])) for _ in range(rng.randint(2, 5)))); top = nh; nh += 1
+        for hh in subs + [top, 7, 4, 0]:
+            ls.append("API cxrcmp %d" % hh)
+        lines += ls
     # conversions
     vals = ["new int 5", "new int -3", "new int 9223372036854775807", "new float 4004000000000000", "new float 3ff0000000000000",
             "new float c00c000000000000", "new float 7ff0000000000000", "new str abc", "new str ", "new str é\\nq", "new bool 1", "new bool 0",
